@@ -16,6 +16,9 @@ pub struct TokCase {
     pub user: Option<Vec<LexRow>>,
     /// (pl, pr): p[old] = new
     pub mapping: Option<(Vec<usize>, Vec<usize>)>,
+    /// a second mapping applied right after the first (only when `mapping` is set)
+    #[serde(default)]
+    pub mapping2: Option<(Vec<usize>, Vec<usize>)>,
     pub user_before_map: bool,
     pub roundtrip: bool,
     pub opts: Vec<Opts>,
@@ -32,6 +35,7 @@ impl TokCase {
             "lex.csv": self.spec.lex_csv(), "char.def": self.spec.char_def(), "unk.def": self.spec.unk_def(), "connector": conn,
             "user.csv": self.user.as_ref().map(|u| lex_csv(u)),
             "mapping(lmap,rmap)": self.mapping.as_ref().map(|(pl, pr)| (perm_to_iter(pl), perm_to_iter(pr))),
+            "second_mapping(lmap,rmap)": self.mapping.as_ref().and(self.mapping2.as_ref()).map(|(pl, pr)| (perm_to_iter(pl), perm_to_iter(pr))),
             "user_before_map": self.user_before_map, "roundtrip": self.roundtrip,
         })
     }
@@ -77,6 +81,18 @@ pub fn prepare(case: &TokCase) -> Prep {
         };
         spec = case.spec.mapped(pl, pr);
         user = case.user.as_ref().map(|u| map_rows(u, pl, pr));
+        if let Some((ql, qr)) = &case.mapping2 {
+            // a user lexicon that is already there is renumbered a second time; one loaded afterwards is
+            // translated by the composition of both mappings
+            let (li, ri) = (perm_to_iter(ql), perm_to_iter(qr));
+            d = match guarded(move || d.map_connection_ids_from_iter(li, ri).map_err(|e| e.to_string())) {
+                Ok(Ok(d)) => d,
+                Ok(Err(e)) => return Prep::Rejected(format!("second map: {e}")),
+                Err(p) => return Prep::Panicked(format!("second map: {p}")),
+            };
+            spec = spec.mapped(ql, qr);
+            user = user.as_ref().map(|u| map_rows(u, ql, qr));
+        }
         if let (Some(u), false) = (&case.user, case.user_before_map) {
             d = match load(d, u) {
                 Ok(d) => d,
@@ -107,6 +123,7 @@ pub fn gen_tokcase(rng: &mut Rng, cfg: &GenCfg, nsent: usize, variety: bool) -> 
     }
     let (nr, nl) = spec.conn.dims();
     let mapping = if variety && rng.chance(0.3) { Some((gen_perm_ids(rng, nl), gen_perm_ids(rng, nr))) } else { None };
+    let mapping2 = if mapping.is_some() && rng.chance(0.35) { Some((gen_perm_ids(rng, nl), gen_perm_ids(rng, nr))) } else { None };
     let user_before_map = rng.chance(0.5);
     let roundtrip = variety && rng.chance(0.15);
     let mut opts = vec![gen_opts(rng, &spec)];
@@ -117,13 +134,14 @@ pub fn gen_tokcase(rng: &mut Rng, cfg: &GenCfg, nsent: usize, variety: bool) -> 
     for _ in 0..nsent {
         sentences.push(gen_sentence(rng, &spec, user.as_deref()));
     }
-    TokCase { spec, user, mapping, user_before_map, roundtrip, opts, sentences }
+    TokCase { spec, user, mapping, mapping2, user_before_map, roundtrip, opts, sentences }
 }
 
 fn case_hash(case: &TokCase, s: &str, o: Opts) -> u64 {
     let mut b = serde_json::to_vec(&case.spec).unwrap();
     b.extend(serde_json::to_vec(&case.user).unwrap());
     b.extend(serde_json::to_vec(&case.mapping).unwrap());
+    b.extend(serde_json::to_vec(&case.mapping2).unwrap());
     b.extend(s.as_bytes());
     b.push(o.ignore_space as u8);
     b.push(o.mgl as u8);
@@ -151,6 +169,9 @@ fn conn_bucket(ctx: &mut Ctx, case: &TokCase) {
     }
     if case.mapping.is_some() {
         ctx.bucket("with_id_mapping");
+        if case.mapping2.is_some() {
+            ctx.bucket(if case.user.is_none() { "with_two_id_mappings" } else if case.user_before_map { "user_lexicon_then_two_id_mappings" } else { "two_id_mappings_then_user_lexicon" });
+        }
     }
     if case.roundtrip {
         ctx.bucket("after_write_read");
@@ -703,6 +724,37 @@ pub fn c03_witness_astral(ctx: &mut Ctx) {
         ctx.violation("char_info_mismatch", "C03:astral-character-with-range-covering-U+0000", format!("U+20BB7 is covered by no char.def range (ranges stop at U+FFFF), so it must be DEFAULT; the table says {name}"), case);
     } else {
         ctx.bucket("witness_astral_ok");
+    }
+}
+
+/// Runs of one grouping category longer than 65 535 characters: the grouped candidate is omitted only when the run
+/// exceeds max_grouping_len + 1 (never, by default), whatever the length.
+pub fn c03_witness_long_runs(ctx: &mut Ctx) {
+    let char_def = "DEFAULT 0 1 0\nALPHA 1 1 0\n0x0061..0x007A ALPHA\n";
+    // (run length, max_grouping_len, expected number of tokens); a run of n > mgl + 1 characters gives n - (mgl + 1)
+    // single-character fallback words followed by the grouped rest
+    let cases: [(usize, usize, usize); 6] = [(65_536, 0, 1), (65_537, 0, 1), (70_000, 0, 1), (65_537, 65_536, 1), (65_537, 65_535, 2), (70_001, 70_000, 1)];
+    for (n, mgl, want) in cases {
+        let d = match build_from_texts(b"zz,0,0,1,Z\n", char_def.as_bytes(), b"DEFAULT,0,0,10,D\nALPHA,0,0,20,A\n", &ConnTexts::Matrix(b"1 1\n0 0 0\n".to_vec())) {
+            BuildOutcome::Ok(d) => d,
+            _ => return,
+        };
+        let tok = Tokenizer::new(d).max_grouping_len(mgl);
+        let mut w = tok.new_worker();
+        let s: String = "a".repeat(n);
+        ctx.eval();
+        let case = json!({"char.def": char_def, "unk.def": "DEFAULT,0,0,10,D\nALPHA,0,0,20,A", "lex.csv": "zz,0,0,1,Z", "sentence": format!("'a' x {n}"), "max_grouping_len": mgl});
+        match tokenize(&mut w, &s) {
+            Ok(t) if t.len() == want && t.iter().all(|x| x.feat == "A") && t.last().map_or(false, |x| x.ce == n) => ctx.bucket("witness_group_run_longer_than_65535_ok"),
+            Ok(t) => {
+                ctx.violation("candidate_multiset_mismatch", "C03:witness:long-group-run", format!("a run of {n} characters of a category with group=1, length=0 and max_grouping_len {mgl}: expected {want} token(s) (the grouped run is omitted only beyond max_grouping_len + 1), got {} token(s), the first {:?}", t.len(), t.first().map(|x| (x.cs, x.ce, x.feat.clone()))), case);
+                return;
+            }
+            Err(p) => {
+                ctx.violation("tokenize_panicked", "C03:witness:long-group-run", p, case);
+                return;
+            }
+        }
     }
 }
 
